@@ -446,7 +446,12 @@ func (n *dagScanNode) addSignatureFieldToDoc(link cidlink.Link, commit *core.Doc
 	if err != nil {
 		return err
 	}
-	sigFieldIndex := n.commitSelect.DocumentMapping.IndexesByName[request.SignatureFieldName][0]
+	sigFieldIndexes := n.commitSelect.DocumentMapping.IndexesByName[request.SignatureFieldName]
+	if len(sigFieldIndexes) == 0 {
+		// The signature field has not been requested.
+		return nil
+	}
+	sigFieldIndex := sigFieldIndexes[0]
 	sigMapping := n.commitSelect.DocumentMapping.ChildMappings[sigFieldIndex]
 
 	sigDoc := sigMapping.NewDoc()
